@@ -1488,6 +1488,9 @@ def _s_window():
         raise TranslationError(f'_get_data_window: tiles visited {subs}')
     if U(the_assign(fn, 'im_data_win')) != 'union(im_data_win, block_data_win) if im_data_win else block_data_win':
         raise TranslationError('_get_data_window: union')
+    if any(isinstance(n, (ast.Break, ast.Continue)) for n in ast.walk(fn)) or \
+            sum(1 for n in ast.walk(fn) if isinstance(n, ast.Call) and U(n.func) == 'future.result') != 1:
+        raise TranslationError('_get_data_window: the result of every tile must be collected (an un-collected future hides its exception)')
     sf = fn_body(src_of(ParamStats.stats))
     if U(the_assign(sf, 'data_win')) != 'self._get_data_window(threads=threads)':
         raise TranslationError('stats: data_win')
@@ -1585,7 +1588,7 @@ PROVIDES = {'_k_fit_gain': ('fitGain_',), '_k_fit_gain_offset': ('fitGainOffset_
 SERVES = {
     'C01': ('fitGain', 'r2_', 'blk_', 'blockNorm_', 'kernel_'), 'C02': ('fitGain', 'r2_', 'blk_', 'blockNorm_', 'applyParams', 'resamplingIsDown'),
     'C07': ('fitGain', 'r2_', 'blk_', 'blockNorm_', 'applyParams', 'mask_'), 'C14': ('applyParams', 'paramIndex', 'fitGain', 'r2_', 'profile_metaTags', 'paramImage_', 'tags_'),
-    'C04': ('prog', 'fanOut', 'accumulate_', 'locks_', 'threads_'), 'C09': ('prog', 'outFilesEvents', 'fanOut'), 'C10': ('outFilesEvents', 'profile_', 'cli_fuseLoop', 'names_'), 'C11': ('cmp_', 'cmpPx_', 'resamplingIsDown', 'accumulate_compare', 'mask_'), 'C12': ('stats_', 'accumulate_stats', 'paramImage_', 'tags_', 'statsWindow_'), 'C17': ('cover_',), 'C20': ('bounded_', 'writeSteps', 'read_', 'convert_', 'mask_'), 'C13': ('convert_', 'writeSteps', 'profile_'), 'C08': ('read_', 'mask_', 'bands_'),
+    'C04': ('prog', 'fanOut', 'accumulate_', 'locks_', 'threads_'), 'C09': ('prog', 'outFilesEvents', 'fanOut', 'statsWindow_'), 'C10': ('outFilesEvents', 'profile_', 'cli_fuseLoop', 'names_'), 'C11': ('cmp_', 'cmpPx_', 'resamplingIsDown', 'accumulate_compare', 'mask_'), 'C12': ('stats_', 'accumulate_stats', 'paramImage_', 'tags_', 'statsWindow_'), 'C17': ('cover_',), 'C20': ('bounded_', 'writeSteps', 'read_', 'convert_', 'mask_'), 'C13': ('convert_', 'writeSteps', 'profile_'), 'C08': ('read_', 'mask_', 'bands_'),
     'C03': ('writeSteps', 'expandWindow_'), 'C05': ('overlapForKernel', 'blocks_', 'resamplingIsDown', 'fitGain', 'r2_', 'kernel_'),
     'C06': ('blocks_', 'expandWindow_', 'roundBounds_', 'autoBlock_', 'orient_'), 'C16': ('covers_axis', 'orient_'), 'C18': ('resolveAutoIsRef', 'orient_', 'cli_fuseLoop', 'tags_'), 'C19': ('cli_', 'names_', 'threads_', 'kernel_'), 'C15': ('match_', 'bands_', 'bandInfo_'),
 }
@@ -1611,7 +1614,7 @@ TIE = {
     'C13': [('SrcTieGeom', 'src_C13_'), ('SrcTieSched', 'src_C13_')], 'C08': [('SrcTieCli', 'src_C15_non_alpha'), ('SrcTieGeom', 'src_C08_')],
     'C17': [('SrcTieGeom', 'src_C17_'), ('E2EPartial', 'partial_mask_'), ('E2EPartialDef', 'partial_valid_'),
             ('E2EPartialSrc', 'partial')], 'C20': [('SrcTieGeom', 'src_C20_'), ('SrcTieGeom', 'src_C08_nan_equals'), ('SrcTieGeom', 'src_C08_mask_')],
-    'C04': [('SrcTieCli', 'src_C19_threads'), ('SrcTieSched', 'src_C04_')], 'C09': [('SrcTieSched', 'src_C04_')], 'C10': [('SrcTieCli', 'src_C19_names'), ('SrcTieSched', 'src_C10_'), ('SrcTieSched', 'src_C13_profiles'), ('SrcTieSched', 'src_C19_loops')], 'C19': [('SrcTieCli', 'src_C19_threads'), ('SrcTieCli', 'src_C19_names'), ('SrcTieCli', 'src_C19_defaults'), ('SrcTieCli', 'src_C01_kernel'), ('SrcTieSched', 'src_C19_')],
+    'C04': [('SrcTieCli', 'src_C19_threads'), ('SrcTieSched', 'src_C04_')], 'C09': [('SrcTieSched', 'src_C04_'), ('SrcTieCli', 'src_C12_window_steps')], 'C10': [('SrcTieCli', 'src_C19_names'), ('SrcTieSched', 'src_C10_'), ('SrcTieSched', 'src_C13_profiles'), ('SrcTieSched', 'src_C19_loops')], 'C19': [('SrcTieCli', 'src_C19_threads'), ('SrcTieCli', 'src_C19_names'), ('SrcTieCli', 'src_C19_defaults'), ('SrcTieCli', 'src_C01_kernel'), ('SrcTieSched', 'src_C19_')],
 }
 
 
